@@ -28,6 +28,9 @@ Definition replace_agrees (kd : kind) (m : list (pyv * pyv)) (cs : list val) (o 
   res_col_agrees kd (replace_model kd m cs) o.
 Definition keep_agrees (t : tbl) (wrapped : bool) (args : list karg) (o : obs) : bool :=
   res_tbl_agrees (keep_model t wrapped args) o.
+(* column objects resolved by the model itself (BaseColumn.name over the owner's columns, _colname dispatch) *)
+Definition keep_obj_agrees (t : tbl) (wrapped : bool) (args : list oarg) (o : obs) : bool :=
+  res_tbl_agrees (keep_model_obj t wrapped args) o.
 (* z on inputs whose standard deviation s is rational: exact agreement of every numeric cell *)
 Definition z_exact_agrees (xs : list Q) (s : Q) (out : list Q) : bool :=
   Qeq_bool (s * s) (z_var xs) && forall2b Qeq_bool (z_model xs s) out.
